@@ -208,6 +208,8 @@ type Driver struct {
 
 	errs chan error
 	done chan bool
+	// readDone is closed by the read loop when it exits.
+	readDone chan struct{}
 }
 
 // Open opens the underlying generic.Driver, and by extension the channel.Channel and Transport
@@ -249,6 +251,8 @@ func (d *Driver) Open() (reterr error) {
 
 	simhook.Yield("nc.open.spawn")
 
+	d.readDone = make(chan struct{})
+
 	go d.read()
 
 	return nil
@@ -264,7 +268,11 @@ func (d *Driver) Close() error {
 
 	simhook.Yield("nc.close.done")
 
-	d.done <- true
+	select {
+	case d.done <- true:
+	case <-d.readDone:
+		// the read loop is already gone (Close was called before), nobody left to signal
+	}
 
 	err := d.Channel.Close()
 	if err != nil {
